@@ -8,6 +8,7 @@ import (
 	"go/format"
 	"go/parser"
 	"go/token"
+	"math/rand"
 	"os"
 	"path/filepath"
 	"strings"
@@ -263,6 +264,41 @@ func checkC01(c *Ctx) {
 			nSnip++
 		}
 	}
+	// bounded-exhaustive layouts of commented sibling lists (13 list kinds): every placement of lead,
+	// detached, trailing and hanging comments and every blank-line pattern within the bound
+	nChunks, maxCom, perKind := 2, 3, 500
+	if !c.Quick() {
+		nChunks, maxCom, perKind = 3, 4, 1<<30
+	}
+	nLayouts := 0
+	rl := rand.New(rand.NewSource(c.Seed))
+	for _, t := range listTemplates {
+		var srcs []string
+		enumLayouts(t, nChunks, maxCom, func(src string) { srcs = append(srcs, src) })
+		if c.Quick() {
+			enumLayouts(t, 3, 2, func(src string) { srcs = append(srcs, src) })
+		}
+		if len(srcs) > perKind {
+			rl.Shuffle(len(srcs), func(i, j int) { srcs[i], srcs[j] = srcs[j], srcs[i] })
+			srcs = srcs[:perKind]
+		}
+		for _, src := range srcs {
+			nLayouts++
+			for _, e := range entryPoints("layout.go", []byte(src), false)[:2] {
+				key := "layout|" + t.Name + "|" + shortHash(src) + "|" + e.Entry
+				c.Eval(key, strings.Contains(src, "//"))
+				if e.Err != "" {
+					c.Fail(Finding{Sig: "roundtrip-fails", Input: key, What: e.Entry + ": " + e.Err + " on\n" + src, Replay: obj{"kind": "c01snip", "src": src}})
+				} else if !bytes.Equal(e.Out, []byte(src)) {
+					c.Fail(Finding{Sig: "roundtrip-bytes-differ", Input: key, What: e.Entry + " (" + t.Name + " layout): " + diffAt([]byte(src), e.Out) + "\nsource:\n" + src, Replay: obj{"kind": "c01snip", "src": src}})
+				}
+			}
+			if it, _ := linkRecord(c, "C01layout", src, maxFrags); it.Trace != nil {
+				items = append(items, it)
+			}
+		}
+	}
+	c.Set("layouts", nLayouts)
 	c.Traces(int64(len(items)))
 	c.Set("link_snippets", len(items))
 	validateLink(c, items)
@@ -298,7 +334,22 @@ func linkRecord(c *Ctx, prop string, sn string, maxFrags int) (traceItem, int) {
 	if sp == nil {
 		sp = []decorator.VerifSpace{}
 	}
-	b, _ := json.Marshal(obj{"frags": frags, "decs": decs, "spaces": sp})
+	// mark the fragments File.Imports contributes a second time (same kind, node, name and position)
+	type fk struct {
+		k, name string
+		node    int
+		pos     int
+	}
+	seenF := map[fk]bool{}
+	fl := make([]obj, len(frags))
+	for i, fr := range frags {
+		key := fk{fr.K, fr.Name, fr.Node, fr.Pos}
+		dup := fr.Node != 0 && seenF[key]
+		seenF[key] = true
+		fl[i] = obj{"k": fr.K, "node": fr.Node, "name": fr.Name, "text": fr.Text, "line": fr.Line, "empty": fr.Empty, "indent": fr.Indent, "pos": fr.Pos,
+			"sd": fr.SD, "lab": fr.Labeled, "clause": fr.Clause, "si": fr.SI, "ei": fr.EI, "type": fr.Type, "dup": dup}
+	}
+	b, _ := json.Marshal(obj{"frags": fl, "decs": decs, "spaces": sp})
 	return traceItem{Key: sn, Trace: append(b, '\n'), Events: 1, Replay: obj{"kind": "c01snip", "src": sn}}, len(frags)
 }
 
